@@ -43,6 +43,14 @@ func writeReplay(P *Prog, dir string, r *Result) string {
 			m = m[:20000] + "\n...[truncated]"
 		}
 		b.WriteString(m)
+	} else if out, failed, ran := runValueReplay(P, r); ran {
+		r.replayFails = failed
+		b.WriteString("\nNo solver discharged this obligation. Scenario replay against the real code:\n" + out + "\n")
+		if failed {
+			b.WriteString("REPLAY-RESULT: the real code violates the obligation in this scenario\n")
+		} else {
+			b.WriteString("REPLAY-RESULT: no failing input found by replay (the obligation still fails deductively)\n")
+		}
 	} else {
 		b.WriteString("\nNo solver could discharge this obligation within the time limit; no counterexample was produced (no-failing-input-found).\n")
 		if r.Raw != "" {
